@@ -16,7 +16,7 @@ RULE = ('the C09/C10 histories executed under seeded loading knobs, every config
 def main(tier, seed):
     col = harness.Collector('C23', 'exploration', tier, seed, RULE)
     deadline = time.time() + harness.budget_s(tier)
-    focus = ['reads', 'rels', 'load', 'default', 'delete', 'load']
+    focus = ['reads', 'rels', 'load', 'partial', 'default', 'delete', 'load', 'partial']
 
     def cases():
         i = 0
